@@ -50,6 +50,12 @@ CHECKS = {
  'C16': ('exploration', '32 constant-carrying programs x 8 encodings (UTF-8, BOM, cookies latin-1/cp1252/shift_jis/utf-8, cookie contradicting a BOM) x 5 newline conventions x 6 shebang forms x {bytes, str} x preserve_shebang on/off x {all transforms off, default}, and through the CLI: strict tree equality with the interpreter\'s own parse of the bytes (or same behaviour), first-line rule, api(bytes) == api(text), CLI output decodes as UTF-8; sources the interpreter rejects must raise the same exception class.',
          'bounded exhaustive enumeration of encodings x newlines x shebangs x input types',
          'The interpreter\'s own reading of the bytes is the reference.'),
+ 'C11': ('model_checking', 'Four owned sources of nondeterminism. (1) explicit-state BFS over call histories (14-call alphabet sharing preserve lists, option objects, type parameters, __all__, raising calls; depth 3 / 4), every history in its own fresh process, state = digest of all mutable module-level/class/default-argument state of python_minifier + caller-owned arguments; invariants per transition: result == fresh-process result, arguments == pre-call copies, module state unchanged. (2) stateless preemption-bounded exploration of 2-3 threads calling minify() under a cooperative scheduler (trace events inside python_minifier are the scheduling points): bound 0, every single preemption at line granularity, pairs at call granularity and 3 threads (thorough). (3) every permutation (<=3 elements; reverse/rotations above) of the iteration order of the string sets the renamer builds. (4) PYTHONHASHSEED 0..15 / 0..63+random in fresh processes.',
+         'explicit-state BFS over call histories + preemption-bounded schedule enumeration + exhaustive set-order permutations on the real implementation',
+         'GIL-level interleavings (line/call events), not bytecode-level; seeds are a bounded enumeration backed by explicit set-order control.'),
+ 'C17': ('exploration', 'Pinned corpus (183 modules: python_minifier itself at the pinned commit + 149 CPython 3.12.1 stdlib modules, checksummed) x 11 size options x 2 bases {all off, default minus the option}: the minified text with the option on is never longer (characters and UTF-8 bytes) than with it off. The finite space is enumerated completely; there is no state machine here.',
+         'complete enumeration of a finite configuration space (corpus x option x base)',
+         'The corpus is fixed bytes; quick uses the 34 repository modules + every 6th stdlib module.'),
 }
 
 
